@@ -4,7 +4,8 @@ import warnings
 from pathlib import Path
 
 from vlib import c16_asm as A
-from vlib import c16_instr
+from vlib import c16_instr, c16_loops
+from vlib.py2coq import Unsupported
 from vlib.common import COQ, REPO
 from vlib.configs import configs, core_configs
 
@@ -29,7 +30,7 @@ META = {
 }
 
 KNOWN_PUSH0 = "venom-revert-postamble-push0-pre-shanghai"
-STATIC = ["C16/Asm.v", "C16/HexBytes.v", "C16/InstrBridge.v", "C16/PushProofs.v", "C16/AsmProofs.v", "C16/DecodeProofs.v", "C16/EvmOpcodes.v"]
+STATIC = ["C16/Asm.v", "C16/HexBytes.v", "C16/InstrBridge.v", "C16/LoopsPrelude.v", "C16/PushProofs.v", "C16/AsmProofs.v", "C16/DecodeProofs.v", "C16/EvmOpcodes.v"]
 
 
 # ------------------------------------------------------------------ real side helpers
@@ -129,7 +130,7 @@ def compare_model(ctx, cases, tag):
     """exact comparison model vs real for `cases` (dicts with term/evm/real result).  Returns #mismatches."""
     todo = [c for c in cases if c.get("fresh", True)]
     res = A.run_model([(evm_index(c["evm"]), c["code"] if c["code"] is not None else b"", c["term"]) for c in todo],
-                      f"c16{tag}")
+                      f"c16{tag}", with_gen=bool(ctx.extra.get("loops_ready")))
     bad = 0
     for c, (verdict, wf, sm, cm) in zip(todo, res):
         c["wf"] = wf
@@ -449,11 +450,21 @@ def run(ctx):
     if problems:
         ctx.violation("translator-rejected", "opcode table outside the modelled shape: " + problems[0], {"problems": problems})
     gen_instr = c16_instr.generate(ctx)  # writes GenAsmInstr.v (or reports)
+    gen_loops, loops_err = False, None
+    if gen_instr:
+        try:
+            (COQ / "C16" / "GenAsmLoops.v").write_text(c16_loops.gen_loops())
+            gen_loops = True
+        except Unsupported as e:
+            loops_err = str(e)
     files = ["C16/GenOpcodes.v"] + (["C16/GenAsmInstr.v"] if gen_instr else []) + STATIC + \
-            (["C16/InstrSound.v"] if gen_instr else []) + ["C16/PropsAsm.v"] + (["C16/PropsInstr.v"] if gen_instr else [])
+            (["C16/GenAsmLoops.v"] if gen_loops else []) + (["C16/InstrSound.v"] if gen_instr else []) + \
+            (["C16/LoopsSound.v"] if gen_loops else []) + ["C16/PropsAsm.v"] + \
+            (["C16/PropsInstr.v"] if gen_instr else []) + (["C16/PropsLoops.v"] if gen_loops else [])
     b = ctx.coq_build(files)
     lap("coq build")
     model_ready = all((COQ / (f[:-2] + ".vo")).exists() for f in ["C16/GenOpcodes.v", "C16/Asm.v", "C16/HexBytes.v"])
+    ctx.extra["loops_ready"] = bool(gen_loops and (COQ / "C16" / "GenAsmLoops.vo").exists())
     instr_ready = gen_instr and all((COQ / (f[:-2] + ".vo")).exists() for f in ["C16/GenAsmInstr.v", "C16/InstrBridge.v"])
     if not model_ready:
         ctx.violation("correspondence-broken", "model files did not compile", {"out": b.get("out", "")[-1500:]})
@@ -494,6 +505,9 @@ def run(ctx):
             d["mismatch"] = c.get("why")
             ctx.violation("correspondence-broken", "Asm.v model disagrees with the real assembler", d)
             break
+    if loops_err and not found:
+        ctx.violation("translator-rejected", "cannot translate the assembler loops (symbols.py / core.py): " + loops_err,
+                      {"error": loops_err})
     if bad_instr and not found:
         ctx.violation("correspondence-broken", "py2coq model of instructions.py disagrees with CPython", {"cases": bad_instr})
     if not b["ok"] and not found:
@@ -521,6 +535,7 @@ def run(ctx):
         "target_validity_code_bytes": sum(c.get("target_checked", 0) for c in cc),
         "target_validity_by_evm": {e: sum(1 for c in cc if c["evm"] == e and "target_checked" in c) for e in A.EVM_NAMES},
         "instr_differential_cases": n_instr,
+        "regenerated_loops_compared": (len(fresh) + len(sc)) if ctx.extra.get("loops_ready") else 0,
     })
     if fresh:
         c = fresh[0]
